@@ -41,6 +41,8 @@ def run_line_job(job, seed):
                            'capped': None, 'violations': 1},
                 'violations': [{'clause': clause, 'detail': 'while building/initialising: ' + detail,
                                 'path': [], 'scenario': spec['name']}], 'validated': 0, 'sample': None}
+    if spec.get('splits'):
+        caps.setdefault('witness_labels', ('resume',))
     res = explore(w, spec['name'], seed=seed, **caps)
     validated = 0
     sample = None
@@ -74,8 +76,39 @@ def run_line_job(job, seed):
         validated += 1
         if sample is None:
             sample = [list(x) for x in path]
+    # every explored split point: the path up to 'resume' is completed linearly (first tie choice, no further
+    # operation) and the whole path is replayed through real consecutive simulate() calls
+    nw = 0
+    for wp in res.witnesses[:job.get('e2w', 150)]:
+        if len(e2_viol) >= 3:
+            break
+        try:
+            with _Quiet():
+                lw = LineWorld(spec, make_monitors(mons))
+                full = list(wp)
+                for lab in wp:
+                    lw.apply(lab)
+                while not lw.done():
+                    lab = [l for l in lw.menu() if l[0] == 'ev'][0]
+                    lw.apply(lab)
+                    full.append(lab)
+                lw.final()
+                dg = lw.digest().hex()
+        except Violation:
+            continue          # reported by the exploration itself
+        try:
+            d2 = run_e2(spec, lambda: make_monitors(mons), full, trace=trace)
+        except Violation as v:
+            e2_viol.append({'clause': v.clause, 'detail': v.detail, 'path': [list(x) for x in full], 'scenario': spec['name']})
+            continue
+        if d2 != dg:
+            raise HarnessError(f'{spec["name"]}: split emulation diverges from real consecutive simulate() calls on {full}')
+        validated += 1
+        nw += 1
     rj = res.to_json()
     rj['violations'] += len(e2_viol)
+    if nw:
+        rj['facts']['split_points_replayed_through_real_simulate'] = nw
     if trace:
         rj['facts']['traced_replays'] = validated
     return {'result': rj, 'violations': res.violations + e2_viol, 'validated': validated, 'sample': sample}
